@@ -162,6 +162,23 @@ func Open(dir string, opts ...walOpt) (*WAL, error) {
 				SegmentInfo: si,
 				r:           sw,
 			}
+
+			sealed, indexStart, err := sw.Sealed()
+			if err != nil {
+				return nil, err
+			}
+			if sealed {
+				// We crashed after the append (or ForceSeal) that sealed this segment
+				// was durable but before the rotation was committed to meta. The
+				// segment can't accept appends any more so complete the rotation now:
+				// record the seal and let the code below create and commit a new tail.
+				ss.SealTime = time.Now()
+				ss.MaxIndex = sw.LastIndex()
+				ss.IndexStart = indexStart
+				newState.segments = newState.segments.Set(si.BaseIndex, ss)
+				break
+			}
+
 			newState.tail = sw
 			newState.segments = newState.segments.Set(si.BaseIndex, ss)
 			recoveredTail = true
@@ -193,10 +210,16 @@ func Open(dir string, opts ...walOpt) (*WAL, error) {
 		// truncation that removed all segments) since we otherwise never allow the
 		// state to have a sealed tail segment. But this logic works regardless!
 
-		// Create a new segment. We use baseIndex of 1 even though the first append
-		// might be much higher - we'll allow that since we know we have no records
-		// yet and so lastIndex will also be 0.
-		si := w.newSegment(newState.nextSegmentID, 1)
+		// Create a new segment. If the log is empty we use baseIndex of 1 even
+		// though the first append might be much higher - we'll allow that since we
+		// know we have no records yet and so lastIndex will also be 0. Otherwise
+		// (we just completed an interrupted rotation above) it follows the last
+		// sealed segment.
+		nextBaseIndex := uint64(1)
+		if tail := newState.getTailInfo(); tail != nil {
+			nextBaseIndex = tail.MaxIndex + 1
+		}
+		si := w.newSegment(newState.nextSegmentID, nextBaseIndex)
 		newState.nextSegmentID++
 		ss := segmentState{
 			SegmentInfo: si,
